@@ -48,9 +48,11 @@ def unresolvable_constants(srcs: Sequence[str], limit: int) -> Iterator[str]:
     cannot resolve (two intcblock instructions).  An evenly spaced subset of ``srcs``."""
     from mc.gen.rewrites import int_to_intc_unresolvable  # pylint: disable=import-outside-toplevel
 
+    from mc.gen.rewrites import int_to_intc_decoy  # pylint: disable=import-outside-toplevel
+
     step = max(1, len(srcs) // max(1, limit))
-    for s in list(srcs)[::step]:
-        r = int_to_intc_unresolvable(s)
+    for k, s in enumerate(list(srcs)[::step]):
+        r = int_to_intc_unresolvable(s) if k % 2 == 0 else int_to_intc_decoy(s)
         if r is not None:
             yield r[0]
 
